@@ -473,6 +473,12 @@ func (ex *Executor) verifIntrinsic(st *State, fr *Frame, name string, args []Val
 			unsupported("missing job parameter %q", nm)
 		}
 		return ex.c64(int(v))
+	case "verifParamOr":
+		nm := ex.strArg(args[0])
+		if v, ok := ex.opt.Params[nm]; ok {
+			return ex.c64(int(v))
+		}
+		return args[1]
 	case "verifBytes":
 		nm := ex.strArg(args[0])
 		n := ex.cint(st, args[1].(*Term))
